@@ -93,6 +93,7 @@ type Interp struct {
 	pools     map[*Object]*poolState
 	timeNow   int
 	mainDeferFr *frame
+	params map[string]int
 	callStack []*frame
 	panicStack []string
 	onceDone  map[string]bool
@@ -199,7 +200,19 @@ func (it *Interp) setRoot(o *Object, v Value) {
 func (it *Interp) rtPanic(fr *frame, kind, msg string) {
 	instr := fr.cur
 	gp := &guestPanic{kind: kind, msg: msg, site: it.site(instr)}
-	gp.key = instr.Parent().String() + "|" + kind + "|" + it.srcLine(instr)
+	// attribute to the innermost frame inside the module under test
+	ki := instr
+	for i := len(it.callStack) - 1; i >= 0; i-- {
+		f := it.callStack[i]
+		if f.fn.Pkg != nil && strings.HasPrefix(f.fn.Pkg.Pkg.Path(), modPath) && f.cur != nil {
+			ki = f.cur
+			break
+		}
+	}
+	if ki != instr {
+		gp.site = it.site(ki) + " (in " + instr.Parent().String() + ")"
+	}
+	gp.key = ki.Parent().String() + "|" + kind + "|" + it.srcLine(ki)
 	gp.val = &IfaceV{t: rtErrType, v: &StrV{s: "runtime error: " + msg}}
 	panic(gp)
 }
@@ -827,7 +840,14 @@ func (it *Interp) exec(fr *frame, instr ssa.Instruction) {
 		if s.base == nil {
 			fr.env[in] = &PtrV{}
 		} else {
-			it.unsupported("slice to array pointer")
+			// modelled as a read-only snapshot (exact for the [N]T(slice)
+			// conversion, which dereferences at once); stores through it are
+			// reported as unsupported
+			vals := it.readElems(fr, s, it.tt.Const(64, 0), int(at.Len()))
+			arr := &ArrayV{n: int(at.Len()), dense: vals}
+			o := it.newObject(arr, "slice-to-array snapshot")
+			o.frozen = true
+			fr.env[in] = &PtrV{obj: o}
 		}
 	default:
 		it.unsupported("instruction %T: %s", instr, instr)
